@@ -251,6 +251,9 @@ impl Property for C01 {
     }
     fn run(&self, ctx: &mut Ctx) -> Result<(), Violation> {
         let mut gen = GenCfg::standard(ctx.thorough);
+        // the same measurement also reported under another threshold / epoch (with the randomness
+        // server as source the client randomness is then IDENTICAL across thresholds)
+        gen.relatives = ctx.ch.chance(1, 2);
         // size-dependent paths: every 16th run carries payloads beyond 64 KiB; in thorough every
         // 40th run has a threshold above 256 (needs as many clients)
         if ctx.ch.chance(1, 16) {
